@@ -41,7 +41,7 @@ def plan(tier, seed):
             for mat in ("NeoHooke", "NeoHookeCompressible", "tt-mooney", "OgdenRoxburgh-softened"):
                 for amp in (0.0, 0.12):
                     cases.append(dict(key=f"planestrain/{fam}/{member}/{mat}/amp={amp}", kind="ps", fam=fam, member=member, mat=mat, amp=amp, seed=seed, cost=6 if fam != "quad" else 2))
-    for fam in ("quad", "quad8"):
+    for fam in ("quad", "quad8", "triangle-mini"):
         for mat in ("NeoHooke", "NeoHookeCompressible", "tt-mooney"):
             for amp in (0.0, 0.08):
                 cases.append(dict(key=f"axi-energy/{fam}/{mat}/amp={amp}", kind="axi-energy", fam=fam, mat=mat, amp=amp, seed=seed, cost=3))
@@ -194,8 +194,19 @@ def run(case):
         dhdX = np.asarray(region.dhdX)  # a, J, q, c
         X = mesh.points
         cells = mesh.cells
-        Rq = np.einsum("ca,aq->qc", X[cells][:, :, 1], h)
+        if fam == "triangle-mini":
+            # (the bubble point carries no geometry: the radius is interpolated from the three corner points)
+            hl = np.array([np.asarray(fem.element.Triangle().function(q_), float) for q_ in region.quadrature.points]).T  # a, q
+            Rq = np.einsum("ca,aq->qc", X[cells][:, :3, 1], hl)
+        else:
+            Rq = np.einsum("ca,aq->qc", X[cells][:, :, 1], h)
         dA = np.asarray(region.dV)
+        # the radius the field itself reports at the quadrature points, for every way the field may be created (default
+        # value type, explicit double / single precision)
+        for dlab, dkw, tl in (("default", {}, 1e-13), ("float64", dict(dtype=np.float64), 1e-13), ("float32", dict(dtype=np.float32), 1e-6)):
+            fa_ = fem.FieldAxisymmetric(region, dim=2, **dkw)
+            c.trans += 1
+            c.cmp(f"radius/dtype={dlab}", "radius of the axisymmetric field at the quadrature points = interpolated radial coordinate of the cell's geometry points", np.asarray(fa_.radius, dtype=float).reshape(Rq.shape), Rq, tl)
 
         def energy(uvals):
             uc = uvals[cells]  # c, a, i
